@@ -20,9 +20,10 @@ import RedisVerif.Model.Crdt
      queueing prologue of `CommandExecutor::execute` (`redis/executor/mod.rs:391-406`), used by the
      simulation path.  One `&mut self`, no awaits: no interleaving inside EXEC; WATCH snapshots the
      full `Value` (`self.data.get(key).cloned()`) in a map (re-WATCH overwrites).
-  3. `KV` — a tiny concrete store (strings + lists, ten commands) that instantiates both, used by
-     the driver (correspondence with the real executor is checked by the harness) and by the
-     kernel-checked counterexamples.
+  3. `KV` — a small concrete store (strings, lists, hashes, sets, sorted sets with their scores;
+     about twenty commands; a passing deadline is the explicit step `evict`) that instantiates
+     both, used by the driver (correspondence with the real executor is checked by the harness)
+     and by the kernel-checked counterexamples.
 
   As everywhere: this transcribes the code as it is, including what looks wrong.
 -/
@@ -311,9 +312,16 @@ end Txn
 /-! ## a tiny concrete store: strings and lists -/
 namespace KV
 
+/-- the five value types of the executor.  Unordered Rust containers are canonical maps keyed by
+    the injective code of the field / member bytes, so Lean's `=` is Rust's extensional
+    `PartialEq` — for a sorted set that includes the SCORES (`RedisSortedSet::eq` compares the
+    member → score maps). -/
 inductive Val where
   | str (b : Bytes)
   | list (l : List Bytes)
+  | hash (h : NMap Bytes)      -- field code ↦ value
+  | set (m : NSet)             -- member codes
+  | zset (z : NMap Int)        -- member code ↦ score (integral scores in the runs)
   deriving DecidableEq, Repr
 
 abbrev Store := NMap Val
@@ -328,6 +336,7 @@ inductive KErr where
   | overflow      -- "ERR increment or decrement would overflow"
   | unknownCmd    -- "ERR unknown command '…'"
   | connLevel     -- "ERR … is handled at connection level, not executor"
+  | noSuchKey     -- "ERR no such key"
   deriving DecidableEq, Repr
 
 inductive Rep where
@@ -356,6 +365,19 @@ inductive Cmd where
   | rpush (k : Nat) (vs : List Bytes)
   | lrange (k : Nat)                     -- LRANGE k 0 -1
   | llen (k : Nat)
+  | lset0 (k : Nat) (v : Bytes)          -- LSET k 0 v     (same-length replacement)
+  | lpop (k : Nat)
+  | hset (k : Nat) (f : Nat) (v : Bytes)
+  | hdel (k : Nat) (f : Nat)
+  | sadd (k : Nat) (m : Nat)
+  | srem (k : Nat) (m : Nat)
+  | zadd (k : Nat) (score : Int) (m : Nat)
+  | zrem (k : Nat) (m : Nat)
+  | expire (k : Nat)                     -- EXPIRE k <far future>: the value is untouched
+  | persist (k : Nat) (had : Bool)       -- PERSIST k; `had` = the key carried a deadline (deadlines
+                                         --   are not modelled: the driver passes the observation)
+  | evict (k : Nat)                      -- not a command: the key's deadline passed and the shard
+                                         --   evicted it (`set_time` before the next command)
   | ping
   | unwatch
   | unknown                              -- `Command::Unknown(name)`
@@ -407,7 +429,7 @@ def execWith (localFixed : Bool) (s : Store) : Cmd → Store × Rep
   | .get k =>
     match NMap.get s k with
     | some (.str b) => (s, .bulk (some b))
-    | some (.list _) => (s, .err .wrongType)
+    | some _ => (s, .err .wrongType)
     | none => (s, .bulk none)
   | .set k v => (NMap.insert k (.str v) s, .simple .ok)
   | .incr k =>
@@ -418,12 +440,12 @@ def execWith (localFixed : Bool) (s : Store) : Cmd → Store × Rep
       | some n =>
         if n + 1 ≤ 9223372036854775807 then (NMap.insert k (.str (showInt (n + 1))) s, .int (n + 1))
         else (s, .err .overflow)
-    | some (.list _) => (s, .err .wrongType)
+    | some _ => (s, .err .wrongType)
     | none => (NMap.insert k (.str (showInt 1)) s, .int 1)
   | .append k v =>
     match NMap.get s k with
     | some (.str b) => (NMap.insert k (.str (b ++ v)) s, .int (b ++ v).length)
-    | some (.list _) => (s, .err .wrongType)
+    | some _ => (s, .err .wrongType)
     | none => (NMap.insert k (.str v) s, .int v.length)
   | .del k =>
     match NMap.get s k with
@@ -432,18 +454,78 @@ def execWith (localFixed : Bool) (s : Store) : Cmd → Store × Rep
   | .rpush k vs =>
     match NMap.get s k with
     | some (.list l) => (NMap.insert k (.list (l ++ vs)) s, .int (l ++ vs).length)
-    | some (.str _) => (s, .err .wrongType)
+    | some _ => (s, .err .wrongType)
     | none => (NMap.insert k (.list vs) s, .int vs.length)
   | .lrange k =>
     match NMap.get s k with
     | some (.list l) => (s, .arr l)
-    | some (.str _) => (s, .err .wrongType)
+    | some _ => (s, .err .wrongType)
     | none => (s, .arr [])
   | .llen k =>
     match NMap.get s k with
     | some (.list l) => (s, .int l.length)
-    | some (.str _) => (s, .err .wrongType)
+    | some _ => (s, .err .wrongType)
     | none => (s, .int 0)
+  | .lset0 k v =>
+    match NMap.get s k with
+    | some (.list (_ :: l)) => (NMap.insert k (.list (v :: l)) s, .simple .ok)
+    | some (.list []) => (s, .err .noSuchKey)     -- unreachable: no empty lists are stored
+    | some _ => (s, .err .wrongType)
+    | none => (s, .err .noSuchKey)
+  | .lpop k =>
+    match NMap.get s k with
+    | some (.list (x :: l)) =>
+      (if l.isEmpty then NMap.erase k s else NMap.insert k (.list l) s, .bulk (some x))
+    | some (.list []) => (s, .bulk none)
+    | some _ => (s, .err .wrongType)
+    | none => (s, .bulk none)
+  | .hset k f v =>
+    match NMap.get s k with
+    | some (.hash h) =>
+      (NMap.insert k (.hash (NMap.insert f v h)) s, .int (if (NMap.get h f).isSome then 0 else 1))
+    | some _ => (s, .err .wrongType)
+    | none => (NMap.insert k (.hash [(f, v)]) s, .int 1)
+  | .hdel k f =>
+    match NMap.get s k with
+    | some (.hash h) =>
+      if (NMap.get h f).isSome then
+        (if (NMap.erase f h).isEmpty then NMap.erase k s else NMap.insert k (.hash (NMap.erase f h)) s,
+         .int 1)
+      else (s, .int 0)
+    | some _ => (s, .err .wrongType)
+    | none => (s, .int 0)
+  | .sadd k m =>
+    match NMap.get s k with
+    | some (.set ms) =>
+      (NMap.insert k (.set (NSet.insert m ms)) s, .int (if ms.contains m then 0 else 1))
+    | some _ => (s, .err .wrongType)
+    | none => (NMap.insert k (.set [m]) s, .int 1)
+  | .srem k m =>
+    match NMap.get s k with
+    | some (.set ms) =>
+      if ms.contains m then
+        (if (ms.erase m).isEmpty then NMap.erase k s else NMap.insert k (.set (ms.erase m)) s, .int 1)
+      else (s, .int 0)
+    | some _ => (s, .err .wrongType)
+    | none => (s, .int 0)
+  | .zadd k sc m =>
+    match NMap.get s k with
+    | some (.zset z) =>
+      (NMap.insert k (.zset (NMap.insert m sc z)) s, .int (if (NMap.get z m).isSome then 0 else 1))
+    | some _ => (s, .err .wrongType)
+    | none => (NMap.insert k (.zset [(m, sc)]) s, .int 1)
+  | .zrem k m =>
+    match NMap.get s k with
+    | some (.zset z) =>
+      if (NMap.get z m).isSome then
+        (if (NMap.erase m z).isEmpty then NMap.erase k s else NMap.insert k (.zset (NMap.erase m z)) s,
+         .int 1)
+      else (s, .int 0)
+    | some _ => (s, .err .wrongType)
+    | none => (s, .int 0)
+  | .expire k => (s, .int (if (NMap.get s k).isSome then 1 else 0))
+  | .persist k had => (s, .int (if (NMap.get s k).isSome && had then 1 else 0))
+  | .evict k => (NMap.erase k s, .simple .ok)
   | .ping => (s, .simple .pong)
   | .unwatch => (s, .simple .ok)
   | .unknown => (s, .err .unknownCmd)
@@ -471,6 +553,25 @@ def backend : Txn.Backend Store Nat Cmd Rep := backendWith true
 def xbackend : Txn.XBackend Store Nat Cmd Rep Val where
   exec := exec
   value := NMap.get
+
+/-- members of a sorted set in rank order (score, then member code) -/
+def rankInsert (p : Nat × Int) : List (Nat × Int) → List (Nat × Int)
+  | [] => [p]
+  | q :: r => if p.2 < q.2 ∨ (p.2 = q.2 ∧ p.1 ≤ q.1) then p :: q :: r else q :: rankInsert p r
+
+def rankOrder (z : NMap Int) : List Nat := (z.foldr rankInsert []).map (·.1)
+
+/-- what an equality on sorted sets that compares "cardinality and member names in rank order
+    but NOT the scores" can see of a value -/
+def blindScores : Val → Val
+  | .zset z => .zset (NMap.ofList ((rankOrder z).zipIdx.map (fun p => (p.1, (p.2 : Int)))))
+  | v => v
+
+/-- an executor whose WATCH snapshot is compared through a projection `proj` of the value
+    (`proj = id`: the current code, `Value: PartialEq` is extensional) -/
+def xbackendProj (proj : Val → Val) : Txn.XBackend Store Nat Cmd Rep Val where
+  exec := exec
+  value := fun s k => (NMap.get s k).map proj
 
 end KV
 end RedisVerif
